@@ -1,6 +1,7 @@
 package rules
 
 import (
+	"go/types"
 	"sort"
 	"strings"
 
@@ -50,17 +51,26 @@ func ErrorDiscipline(c *Ctx, id string, floor int) {
 	c.R.Rule(id, "a failed step of the mechanism is not turned into success", floor,
 		"an error swallowed inside the mechanism's functions lets the reconcile go on (or report success) as if the step had succeeded")
 	var fns []*ssa.Function
-	for _, f := range c.Mech {
+	for _, f := range reachable(c, c.Mech, 2) {
 		fns = append(fns, closures(f)...)
 	}
 	sort.Slice(fns, func(i, j int) bool { return fns[i].Pos() < fns[j].Pos() })
 	for _, fn := range fns {
 		nres := fn.Signature.Results().Len()
 		if nres == 0 || fn.Signature.Results().At(nres-1).Type().String() != "error" {
+			for _, call := range cfgx.Calls(fn, nil) {
+				if ev := cfgx.ErrEvents(call); ev != nil {
+					guardedUse(c, fn, call, ev)
+				}
+			}
 			continue
 		}
 		for _, call := range cfgx.Calls(fn, nil) {
 			ev := cfgx.ErrEvents(call)
+			if ev != nil {
+				guardedUse(c, fn, call, ev)
+				testedOnly(c, fn, call, ev)
+			}
 			if ev == nil || (len(ev.Fail) == 0 && len(ev.PredTrue) == 0) {
 				continue
 			}
@@ -117,4 +127,305 @@ func ErrorDiscipline(c *Ctx, id string, floor int) {
 				"after this step failed the function returns a nil error at "+bad+": the failure is turned into success", w...)
 		}
 	}
+}
+
+// unguardedOK: "<function>|<callee>" whose other results are meaningful although the error is set
+var unguardedOK = map[string]string{
+	"handleCommonCompositionResult|composite.getClaimFromXR": "best effort: a claim that cannot be read gets no events or conditions; the error is logged and the claim is nil-checked",
+}
+
+// returnedWithErr: every consumer of u's value is a return that also hands back
+// the step's error (possibly wrapped): `return string(raw), errors.Wrap(err, …)`.
+func returnedWithErr(u ssa.Instruction, errV ssa.Value) bool {
+	errRelated := func(x ssa.Value) bool {
+		seen := map[ssa.Value]bool{}
+		var rec func(x ssa.Value, d int) bool
+		rec = func(x ssa.Value, d int) bool {
+			if x == errV {
+				return true
+			}
+			if d > 6 || seen[x] {
+				return false
+			}
+			seen[x] = true
+			switch x := x.(type) {
+			case *ssa.Call:
+				for _, a := range x.Call.Args {
+					if rec(a, d+1) {
+						return true
+					}
+				}
+			case *ssa.Phi:
+				for _, e := range x.Edges {
+					if rec(e, d+1) {
+						return true
+					}
+				}
+			case *ssa.MakeInterface:
+				return rec(x.X, d+1)
+			case *ssa.ChangeInterface:
+				return rec(x.X, d+1)
+			}
+			return false
+		}
+		return rec(x, 0)
+	}
+	seen := map[ssa.Instruction]bool{}
+	var rec func(in ssa.Instruction, d int) bool
+	rec = func(in ssa.Instruction, d int) bool {
+		if seen[in] {
+			return true
+		}
+		seen[in] = true
+		if r, ok := in.(*ssa.Return); ok {
+			return len(r.Results) > 0 && errRelated(r.Results[len(r.Results)-1])
+		}
+		if _, ok := in.(*ssa.DebugRef); ok {
+			return true
+		}
+		v, ok := in.(ssa.Value)
+		if !ok || d > 8 || v.Referrers() == nil || len(*v.Referrers()) == 0 {
+			return false
+		}
+		switch in.(type) {
+		case *ssa.Phi, *ssa.Convert, *ssa.ChangeType, *ssa.MakeInterface, *ssa.ChangeInterface, *ssa.Slice, *ssa.Call, *ssa.Extract, *ssa.UnOp, *ssa.IndexAddr, *ssa.FieldAddr, *ssa.Field, *ssa.SliceToArrayPointer:
+		default:
+			return false
+		}
+		for _, r := range *v.Referrers() {
+			if !rec(r, d+1) {
+				return false
+			}
+		}
+		return true
+	}
+	return rec(u, 0)
+}
+
+// guardedUse: the other results of a step are used only where its error is
+// known to be nil (or are handed back together with it). A step whose error is
+// examined for one particular kind only (status.Code(err) == X) and whose
+// result is then used as if it had succeeded turns every other failure into an
+// empty success.
+func guardedUse(c *Ctx, fn *ssa.Function, call ssa.CallInstruction, ev *cfgx.ErrEv) {
+	cv, ok := call.(*ssa.Call)
+	if !ok || ev.Err == nil || ev.Dropped {
+		return
+	}
+	res := call.Common().Signature().Results()
+	if res.Len() < 2 || cv.Referrers() == nil {
+		return
+	}
+	short := cfgx.ShortCallee(cfgx.CalleeName(call))
+	name := fn.Name()
+	if i := strings.LastIndex(name, "$"); i > 0 {
+		name = name[:i]
+	}
+	if _, ok := unguardedOK[name+"|"+short]; ok {
+		return
+	}
+	var bad ssa.Instruction
+	var w []string
+	uses := 0
+	for _, r := range *cv.Referrers() {
+		ex, ok := r.(*ssa.Extract)
+		if !ok || ex.Index == res.Len()-1 || ex.Referrers() == nil {
+			continue
+		}
+		if _, basic := ex.Type().Underlying().(*types.Basic); basic {
+			continue // counts and flags (n of a Read, "propagated") are meaningful together with an error
+		}
+		for _, u := range *ex.Referrers() {
+			switch u := u.(type) {
+			case *ssa.DebugRef, *ssa.Return:
+				continue
+			case *ssa.Store:
+				continue // `x.f, err = step()`: parked, not used; loads are not followed
+			case *ssa.BinOp:
+				if cfgx.IsNilConst(u.X) || cfgx.IsNilConst(u.Y) {
+					continue
+				}
+			}
+			if returnedWithErr(u, ev.Err) {
+				continue
+			}
+			if _, isPhi := u.(*ssa.Phi); isPhi {
+				continue
+			}
+			uses++
+			if len(ev.OK) == 0 {
+				bad = u
+				continue
+			}
+			if okc, wit := cfgx.MustCross(u, ev.OK, c.posf()); !okc {
+				bad, w = u, wit
+			}
+		}
+	}
+	if uses == 0 {
+		return
+	}
+	at := ""
+	if bad != nil {
+		at = c.pos(bad.Pos())
+	}
+	c.R.Check(bad == nil, load.FuncName(fn)+": "+site(call)+" result used only on success", c.pos(call.Pos()),
+		"the other results of this step are used only where its error is known to be nil",
+		"a result of this step is used at "+at+" on a path where its error was not found to be nil: a failure is taken for an (empty) success", w...)
+}
+
+// reachable: the mechanism's functions and what they call inside crossplane
+// (static callees, and the crossplane implementations of the interface methods
+// they invoke), depth levels down. The steps a mechanism delegates to - a
+// function runner behind an interface, a fetcher, a name generator - are part
+// of it: a failure they swallow is a failure the mechanism never sees.
+func reachable(c *Ctx, roots []*ssa.Function, depth int) []*ssa.Function {
+	const mod = "github.com/crossplane/crossplane/"
+	inMod := func(f *ssa.Function) bool {
+		return f != nil && f.Blocks != nil && f.Synthetic == "" && f.Pkg != nil && strings.HasPrefix(f.Pkg.Pkg.Path(), mod) && !strings.HasPrefix(f.Name(), "zz_") &&
+			!strings.HasSuffix(c.P.Fset.Position(f.Pos()).Filename, "_test.go") && !strings.Contains(c.P.Fset.Position(f.Pos()).Filename, "zz_generated")
+	}
+	var impls func(iface *types.Interface, m *types.Func) []*ssa.Function
+	var named []types.Type
+	impls = func(iface *types.Interface, m *types.Func) []*ssa.Function {
+		if named == nil {
+			var paths []string
+			for p := range c.P.SSAPkgs {
+				if strings.HasPrefix(p, mod) {
+					paths = append(paths, p)
+				}
+			}
+			sort.Strings(paths)
+			for _, p := range paths {
+				var names []string
+				for n, mem := range c.P.SSAPkgs[p].Members {
+					if _, ok := mem.(*ssa.Type); ok {
+						names = append(names, n)
+					}
+				}
+				sort.Strings(names)
+				for _, n := range names {
+					t := c.P.SSAPkgs[p].Members[n].(*ssa.Type).Type()
+					if _, isIface := t.Underlying().(*types.Interface); isIface {
+						continue
+					}
+					if nt, ok := t.(*types.Named); ok && nt.TypeParams().Len() > 0 {
+						continue
+					}
+					named = append(named, t)
+				}
+			}
+		}
+		var out []*ssa.Function
+		for _, t := range named {
+			for _, typ := range []types.Type{t, types.NewPointer(t)} {
+				if !types.Implements(typ, iface) {
+					continue
+				}
+				sel := c.P.SSA.MethodSets.MethodSet(typ).Lookup(m.Pkg(), m.Name())
+				if sel == nil {
+					continue
+				}
+				if f := c.P.SSA.MethodValue(sel); inMod(f) {
+					out = append(out, f)
+				}
+				break
+			}
+		}
+		return out
+	}
+	seen := map[*ssa.Function]bool{}
+	var order []*ssa.Function
+	level := roots
+	for _, f := range roots {
+		if !seen[f] {
+			seen[f] = true
+			order = append(order, f)
+		}
+	}
+	for d := 0; d < depth; d++ {
+		var next []*ssa.Function
+		for _, f := range level {
+			for _, g := range closures(f) {
+				for _, call := range cfgx.Calls(g, nil) {
+					var cs []*ssa.Function
+					if sc := call.Common().StaticCallee(); sc != nil {
+						if inMod(sc) {
+							cs = append(cs, sc)
+						}
+					} else if call.Common().IsInvoke() {
+						if iface, ok := call.Common().Value.Type().Underlying().(*types.Interface); ok {
+							cs = impls(iface, call.Common().Method)
+						}
+					}
+					for _, x := range cs {
+						if !seen[x] {
+							seen[x] = true
+							order = append(order, x)
+							next = append(next, x)
+						}
+					}
+				}
+			}
+		}
+		level = next
+	}
+	return order
+}
+
+// probes: "<function>|<callee>" called to find out *whether* something parses / exists; its error is the answer, not a failure
+var probes = map[string]string{}
+
+// probeCallees: pure parsers and lookups the tree uses as questions ("is this a
+// digest?", "does this tag parse as a version?", "is the field set?"): their
+// failure selects the other branch and is not an event to report.
+var probeCallees = map[string]string{
+	"v1.NewHash":                   "is the constraint / identifier a digest",
+	"semver.NewVersion":            "does the tag parse as a semantic version (others are skipped)",
+	"name.ParseReference":          "does the package string parse as an image reference",
+	"(*fieldpath.Paved).GetString": "is the field set",
+	"(*fieldpath.Paved).GetValue":  "is the field set",
+	"composite.fromFieldPath":      "is the optional connection-detail field set",
+}
+
+// testedOnly: an error that is compared with nil and used for nothing else -
+// not returned, not wrapped, not logged, not recorded - in a function that
+// reports errors: the failure arm only skips the success arm, and whatever the
+// function returns afterwards no longer knows about it.
+func testedOnly(c *Ctx, fn *ssa.Function, call ssa.CallInstruction, ev *cfgx.ErrEv) {
+	if ev.Err == nil || ev.Dropped || len(ev.Fail) == 0 || ev.Err.Referrers() == nil {
+		return
+	}
+	for _, r := range *ev.Err.Referrers() {
+		switch r := r.(type) {
+		case *ssa.DebugRef:
+		case *ssa.BinOp:
+			if !(cfgx.IsNilConst(r.X) || cfgx.IsNilConst(r.Y)) {
+				return
+			}
+		default:
+			return
+		}
+	}
+	name := fn.Name()
+	if i := strings.LastIndex(name, "$"); i > 0 {
+		name = name[:i]
+	}
+	short := cfgx.ShortCallee(cfgx.CalleeName(call))
+	if _, ok := probes[name+"|"+short]; ok {
+		return
+	}
+	if _, ok := probeCallees[short]; ok {
+		return
+	}
+	// only where the failure arm can end in a success return
+	bad := ""
+	for _, r := range cfgx.ErrorReturnsFrom(ev.Fail, nil) {
+		if r.Nil {
+			bad = c.pos(r.At.Pos())
+		}
+	}
+	c.R.Check(bad == "", load.FuncName(fn)+": "+site(call)+" failure visible", c.pos(call.Pos()),
+		"the error of this step is used for more than a nil test, or no success return follows its failure",
+		"the error of this step is only compared with nil - never returned, wrapped or logged - and the function can then return success at "+bad+": the failure is dropped")
 }
